@@ -43,6 +43,15 @@ SEED_DOCS = [
         ["default", 1, "http://d.org/"],
         ["rec", 1, "entity", {"ns": "http://d.org/", "local": "e2", "prefix": "", "as": "bare"}, {}, [], "factory"],
     ]},
+    # a bundle whose records cannot be unified (two start times for one activity): unified() must refuse - and if it
+    # ever does return something, that something must still be independent of the source
+    {"profile": "json", "ops": [
+        ["ns", 0, "ex", "http://a/"],
+        ["rec", 0, "entity", {"ns": "http://a/", "local": "e1", "prefix": "ex", "as": "str"}, {}, [], "factory"],
+        ["bundle", {"ns": "http://a/", "local": "b1", "prefix": "ex", "as": "str"}, "bundle"],
+        ["rec", 1, "activity", {"ns": "http://a/", "local": "a1", "prefix": "ex", "as": "str"}, {"startTime": {"t": "2020-01-01T00:00:00", "as": "dt"}}, [], "factory"],
+        ["rec", 1, "activity", {"ns": "http://a/", "local": "a1", "prefix": "ex", "as": "str"}, {"startTime": {"t": "2021-01-01T00:00:00", "as": "dt"}}, [], "factory"],
+    ]},
 ]
 
 
